@@ -484,6 +484,13 @@ class Unit:
             self.rule('E6.closure_wildcard', len(re.findall(r'\|\s*_\s*\|', t)))
             meta['rules'].append('E6')
             t = t2
+        # --- exit (E8, structural anchor "function exit"): `{ B }` -> `{ let res: T = { B }; <ghost>; res }`.  Only the normal exit
+        # (the value of the body block) passes the ghost statements; `return`/`?` leave the function as before.
+        if c and c.exit and f.ret:
+            ret_ty = re.sub(r'\bSelf\b', 'C', f.ret) if ' :: Ciphersuite :: ' in key else f.ret   # E10 bodies are free functions
+            t = '{\nlet %s: %s = %s;\n%s\n%s\n}' % (c.ret, ret_ty, t, '\n'.join(c.exit), c.ret)
+            self.rule('E8.exit_anchor')
+            meta['rules'].append('E8:exit')
         # --- entry
         entry = ''
         if c and c.entry:
@@ -884,7 +891,7 @@ class Unit:
         lines = t.split('\n')
         cnt = 0
         for i, ln in enumerate(lines):
-            if norm_ws(ln) == want:
+            if norm_ws(re.sub(r'/\*@A\d+\*/', '', ln)) == want:
                 cnt += 1
                 if cnt == nth:
                     if where == 'before':
